@@ -539,7 +539,7 @@ fn random_request(g: &mut Rng) -> (String, RawRequest) {
         r.body = g.bytes_upto(100);
     }
     if g.chance(1, 3) {
-        r.framing = Some(Framing { cuts: vec![3, 1], pendings: vec![0, 1, 1], pending_at_end: 1, immediate_wake: g.chance(1, 2), error_at: None, stall_at: None });
+        r.framing = Some(Framing { cuts: vec![3, 1], pendings: vec![0, 1, 1], pending_at_end: 1, immediate_wake: g.chance(1, 2), error_at: None, stall_at: None, error_kind: None });
     }
     ("random-structured".into(), r)
 }
